@@ -10,12 +10,15 @@ ORACLES = {
     "C09": ["verdict_ref", "fault_ref", "fault_reset", "challenge_counter", "slash_ref", "threshold_ref"],
 }
 ALWAYS = ["no_panic", "no_halt", "hang"]
+# tie of the hand-written model to the Go source: regenerated guards / deadlines / split arithmetic proved equal to the model's
+TIE_MODULES = ["SunriseVerif.Props.TieDA"]
+TIE_GEN = ["KernelsTieDA"]
 
 
 def run(ctx, prop, modules, witness=()):
     if not ctx.translate():
         return
-    ok = ctx.prove(list(modules) + list(witness))
+    ok = ctx.prove(list(modules) + TIE_MODULES + list(witness), needs_gen=TIE_GEN)
     n = 4000 if ctx.thorough() else 160
     res = fw.corr(ctx, "da", n)
     if res is not None:
@@ -33,7 +36,7 @@ def run(ctx, prop, modules, witness=()):
             ctx.fail("infra", "da generator no longer reaches: " + ",".join(missing), "coverage of the correspondence run collapsed")
         fw.report_corr(ctx, "da", res, known_features=lambda f: {"check": f["check"]})
     if ctx.thorough() and ok:
-        ctx.leanchecker(list(modules))
+        ctx.leanchecker(list(modules) + TIE_MODULES)
 
 
 def replay(ctx, path):
